@@ -55,6 +55,13 @@ type Config struct {
 	// ExpireWithRemember (C09 only): expire and remember together, the
 	// remember middleware outside the expire middleware
 	ExpireWithRemember bool `json:"expire_with_remember,omitempty"`
+	// CaseTwinPIDs: every odd account's identifier differs from its even
+	// neighbour's only in the case of the first letter (the simulated user
+	// store is case-sensitive)
+	CaseTwinPIDs bool `json:"case_twin_pids,omitempty"`
+	// ZeroTailRand: the last n bytes of every 64-byte read of the random
+	// source are zero (token values on the boundary of the value space)
+	ZeroTailRand int `json:"zero_tail_rand,omitempty"`
 	// AppLoadsUser: an application middleware in front of the authboss routes
 	// loads the current user into the request context (as the sample
 	// application's data injector does)
@@ -230,6 +237,10 @@ func baseConfig(r *Rng) Config {
 	c.AppLogoutHook = r.Chance(1, 4)
 	c.AppLoadsUser = r.Chance(1, 3)
 	c.SetupBeforeInit = r.Chance(1, 4)
+	c.CaseTwinPIDs = !c.OddPIDs && r.Chance(1, 5)
+	if r.Chance(1, 6) {
+		c.ZeroTailRand = 1 + r.Intn(3)
+	}
 	c.AppAuthHook = r.Chance(1, 6)
 	if r.Chance(1, 3) {
 		c.DBZoneOffset = []int{3 * 3600, -5 * 3600, 5*3600 + 45*60, 14 * 3600, -11 * 3600}[r.Intn(5)]
